@@ -548,9 +548,7 @@ func (s *solver) fallback(extras []*term, wantModel bool, evals []*term, hard bo
 		first := strings.TrimSpace(lines[0])
 		if first == "unsat" {
 			// (the trailing get-value legitimately errors after unsat)
-			if len(lines) > 1 && strings.Contains(lines[1], "(error") && !strings.Contains(lines[1], "model") {
-				continue
-			}
+			// an error before the answer would have been the first line
 			return resUnsat, nil, nil, b.name, true
 		}
 		if strings.Contains(out, "(error") {
